@@ -235,9 +235,9 @@ class Gen:
         r = self.rng
         if not self.chance(self.knob("types")):
             return "int"
+        # no plain char: cppcheck leaves its sign open on unix64 and converts to it as if it were unsigned even on a
+        # platform file that declares it signed ((char)255 known 255) - reported defect, kept out of the population
         cands = ["schar", "uchar", "short", "ushort", "int", "uint"]
-        if self.plat == "p16":
-            cands.append("char")      # spec/p16.xml declares plain char signed; unix64 leaves it open
         if wide:
             cands += ["long", "ulong"]
         return r.choice(cands)
